@@ -188,7 +188,54 @@ def lastseen_result_roundtrip(n: Obj("ProtocolTreeNode"), k: Int):
 # =====================================================================================================================
 # calls
 # =====================================================================================================================
-# CallProtocolEntity (protocol_calls/protocolentities/call.py) has NO scenario: its fromProtocolTreeNode starts with
-# `(_type, callId) = [None] * 2`, which leaves the engine's subset ("unsupported: operator Mult on VRef(3), VInt(2) @L75").  Dropped,
-# reported.  (Read by hand: t goes through int()/str(), a stanza without offline= comes back with offline="0", an empty id is replaced
-# by a generated one, and a child other than offer/transport/relaylatency/reject/terminate is dropped.)
+# CallProtocolEntity (protocol_calls/protocolentities/call.py): t goes through int()/str(), a stanza without offline= comes back with
+# offline="0" (so the documented shape carries offline), an empty id is replaced by a generated one, and a child other than
+# offer/transport/relaylatency/reject/terminate is dropped.  One scenario per position in the elif chain that picks the child kind.
+def call_shape(n, k):
+    return n.tag == "call" and present(n, "id") and len(attr(n, "id")) > 0 and attr(n, "t") == str(k) \
+        and (attr(n, "offline") == "0" or attr(n, "offline") == "1")
+
+
+def call_back(m, n, kind):
+    return m.tag == "call" and m.data is None and n_children(m) == 1 and child(m, 0).tag == kind and child(m, 0).data is None \
+        and n_children(child(m, 0)) == 0 and attr(child(m, 0), "call-id") == attr(pure_child(n, kind), "call-id") \
+        and same_attr(m, n, "id") and same_attr(m, n, "t") and same_attr(m, n, "offline") and same_attr(m, n, "from") and same_attr(m, n, "to") \
+        and same_attr(m, n, "notify") and same_attr(m, n, "retry") and same_attr(m, n, "e")
+
+
+@scenario
+def call_offer_roundtrip(n: Obj("ProtocolTreeNode"), k: Int):
+    """<call id= t= offline= from= notify= retry= e=><offer call-id=/></call>"""
+    requires(call_shape(n, k) and pure_child(n, "offer") is not None)
+    m = CallProtocolEntity.fromProtocolTreeNode(n).toProtocolTreeNode()
+    ensures(call_back(m, n, "offer"))
+
+
+@scenario
+def call_transport_roundtrip(n: Obj("ProtocolTreeNode"), k: Int):
+    requires(call_shape(n, k) and pure_child(n, "offer") is None and pure_child(n, "transport") is not None)
+    m = CallProtocolEntity.fromProtocolTreeNode(n).toProtocolTreeNode()
+    ensures(call_back(m, n, "transport"))
+
+
+@scenario
+def call_relaylatency_roundtrip(n: Obj("ProtocolTreeNode"), k: Int):
+    requires(call_shape(n, k) and pure_child(n, "offer") is None and pure_child(n, "transport") is None and pure_child(n, "relaylatency") is not None)
+    m = CallProtocolEntity.fromProtocolTreeNode(n).toProtocolTreeNode()
+    ensures(call_back(m, n, "relaylatency"))
+
+
+@scenario
+def call_reject_roundtrip(n: Obj("ProtocolTreeNode"), k: Int):
+    requires(call_shape(n, k) and pure_child(n, "offer") is None and pure_child(n, "transport") is None and pure_child(n, "relaylatency") is None
+             and pure_child(n, "reject") is not None)
+    m = CallProtocolEntity.fromProtocolTreeNode(n).toProtocolTreeNode()
+    ensures(call_back(m, n, "reject"))
+
+
+@scenario
+def call_terminate_roundtrip(n: Obj("ProtocolTreeNode"), k: Int):
+    requires(call_shape(n, k) and pure_child(n, "offer") is None and pure_child(n, "transport") is None and pure_child(n, "relaylatency") is None
+             and pure_child(n, "reject") is None and pure_child(n, "terminate") is not None)
+    m = CallProtocolEntity.fromProtocolTreeNode(n).toProtocolTreeNode()
+    ensures(call_back(m, n, "terminate"))
